@@ -1611,6 +1611,12 @@ func (mgr *Manager) convertStreamJob(allConverters []*converters.CachedConverter
 			freeJobsGlobal++
 			switch res.err {
 			case nil:
+				// the output can be found by searches from now on, tags with data filters are evaluated again for the stream
+				converted := bitmask.LongBitmask{}
+				converted.Set(uint(res.job.streamID))
+				mgr.jobs <- func() {
+					mgr.converterOutputAdded(converted)
+				}
 				return
 			default:
 				log.Printf("Error converting stream %d with converter %q: %v", res.job.streamID, allConverters[res.job.converter].Name(), res.err)
